@@ -61,6 +61,16 @@ CLAIMED = {
         "6 C17",
         TECH,
     ),
+    "C18": (
+        "Bounded solver-based check of lazy=True pipelines on the RUN-T function tables: for every output, ALL integer root arguments and every "
+        "valid set of supplied intermediates, nothing runs before evaluate(), evaluate() equals the eager composition and the eager twin, every "
+        "needed function runs exactly once (diamonds, tuple outputs, repeated evaluate()); under construct_dag() the recorded graph is acyclic, "
+        "its function nodes are exactly the needed functions and its edges (picker nodes contracted) exactly the producer-consumer pairs.",
+        "Trusted: z3, CrossHair path exhaustion and builtin models. Under construct_dag() arguments are hashed by the task-graph cache, so values "
+        "are 0..1 there. Outside: > 5 functions, lazy map.",
+        "6 C18",
+        TECH,
+    ),
     "C20": (
         "Bounded solver-based check of Resources. E1 (CrossHair): constructor validity, combine_max over 1..4 operands, update, "
         "with_defaults / maybe_with_defaults, from_dict(dict()) and to_slurm_options with optional *unbounded* integer quantities and "
